@@ -503,25 +503,41 @@ package codecs
 // The Annex-B splitter and the per-NAL-unit closure are executed inside Payload
 // (they have no life of their own: the closure writes Payload's fragment list);
 // their loops carry invariants about Payload's variables.
+//@ pure bool sameSlice(a, b) = sameobj(a, b) && off(a) == off(b) && len(a) == len(b)
 //@ pure bool h264Frags(ps, n, mtu) = forall k :: 0 <= k && k < n ==> ps[k] != nil && fresh(ps[k]) && 1 <= len(ps[k]) && len(ps[k]) <= mtu
 //@ spec (*H264Payloader).Payload>emitNalus
 //@   inline
 //@   loop 0: invariant captured [C08]: p == old(p) && mtu == old(mtu) && sameSlice(nals, old(payload))
 //@   loop 0: invariant scan [C08]: 0 <= start && (offset == 3 || offset == 4) && start + offset <= length && length == len(nals) && int(nals[start + offset - 1]) == 1
-//@   loop 0: invariant frags [C08]: (fresh(payloads) || cap(payloads) == 0) && len(payloads) >= 0
+//@   loop 0: invariant frags [C08]: (fresh(payloads) || cap(payloads) == 0) && len(payloads) >= 0 && h264Frags(payloads, len(payloads), int(mtu))
 //@   loop 0: invariant state [C08]: (p.spsNalu == nil || fresh(p.spsNalu) || sameSlice(p.spsNalu, old(p.spsNalu))) && (p.ppsNalu == nil || fresh(p.ppsNalu) || sameSlice(p.ppsNalu, old(p.ppsNalu)))
 //@   loop 0: decreases length - start
 //@ end
+// index of the first fragment this call adds for the unit itself: after the STAP-A, if one is emitted
+//@ pure h264F(n0, dis, sps, pps, mtu) = n0 + ite(!dis && sps != nil && pps != nil && 5 + len(sps) + len(pps) <= mtu, 1, 0)
 //@ spec (*H264Payloader).Payload$1
-//@   inline
-//@   loop 0: invariant captured [C08]: p == old(p) && mtu == old(mtu) && sameobj(nalu, old(payload))
+//@   requires p != nil
+//@   modifies ref(payloads).*, payloads[*cap], p.spsNalu, p.ppsNalu
 //@   loop 0: invariant fua [C08,C10]: naluRemaining >= 0 && naluIndex >= 1 && naluIndex + naluRemaining == len(nalu) && maxFragmentSize == int(mtu) - 2 && maxFragmentSize >= 1
-//@   loop 0: invariant frags [C08]: (fresh(payloads) || cap(payloads) == 0) && len(payloads) >= 0
+//@   loop 0: invariant grown [C08]: len(payloads) >= len(old(payloads)) && (fresh(payloads) || (sameobj(payloads, old(payloads)) && off(payloads) == off(old(payloads)) && cap(payloads) == cap(old(payloads))))
+//@   loop 0: invariant kept [C08]: forall k :: 0 <= k && k < len(old(payloads)) ==> sameSlice(payloads[k], old(payloads[k]))
+//@   loop 0: invariant added [C08,C10]: forall k :: len(old(payloads)) <= k && k < len(payloads) ==> payloads[k] != nil && fresh(payloads[k]) && 1 <= len(payloads[k]) && len(payloads[k]) <= int(mtu)
 //@   loop 0: invariant state [C08]: (p.spsNalu == nil || fresh(p.spsNalu) || sameSlice(p.spsNalu, old(p.spsNalu))) && (p.ppsNalu == nil || fresh(p.ppsNalu) || sameSlice(p.ppsNalu, old(p.ppsNalu)))
+//@   loop 0: invariant fu_progress [C10]: len(nalu) > int(mtu) && naluLength == len(nalu) - 1 && int(naluType) == bits(nalu[0], 4, 0) && int(naluRefIdc) == bits(nalu[0], 6, 5) * 32 && len(payloads) >= h264F(len(old(payloads)), p.DisableStapA, old(p.spsNalu), old(p.ppsNalu), int(mtu)) && naluIndex == 1 + min((len(payloads) - h264F(len(old(payloads)), p.DisableStapA, old(p.spsNalu), old(p.ppsNalu), int(mtu))) * maxFragmentSize, len(nalu) - 1)
+//@   loop 0: invariant fu_shape [C10]: forall k :: h264F(len(old(payloads)), p.DisableStapA, old(p.spsNalu), old(p.ppsNalu), int(mtu)) <= k && k < len(payloads) ==> int(payloads[k][0]) == 28 + bits(nalu[0], 6, 5) * 32 && bits(payloads[k][1], 4, 0) == bits(nalu[0], 4, 0) && bits(payloads[k][1], 5, 5) == 0 && (bits(payloads[k][1], 7, 7) == 1 <==> k == h264F(len(old(payloads)), p.DisableStapA, old(p.spsNalu), old(p.ppsNalu), int(mtu))) && len(payloads[k]) == 2 + min(maxFragmentSize, len(nalu) - 1 - (k - h264F(len(old(payloads)), p.DisableStapA, old(p.spsNalu), old(p.ppsNalu), int(mtu))) * maxFragmentSize)
 //@   loop 0: decreases naluRemaining
+//@   ensures grown [C08]: len(payloads) >= len(old(payloads)) && (fresh(payloads) || (sameobj(payloads, old(payloads)) && off(payloads) == off(old(payloads)) && cap(payloads) == cap(old(payloads))))
+//@   ensures kept [C08]: forall k :: 0 <= k && k < len(old(payloads)) ==> sameSlice(payloads[k], old(payloads[k]))
+//@   ensures added [C08,C10]: forall k :: len(old(payloads)) <= k && k < len(payloads) ==> payloads[k] != nil && fresh(payloads[k]) && 1 <= len(payloads[k]) && len(payloads[k]) <= int(mtu)
+//@   ensures state [C08]: (p.spsNalu == nil || fresh(p.spsNalu) || sameSlice(p.spsNalu, old(p.spsNalu))) && (p.ppsNalu == nil || fresh(p.ppsNalu) || sameSlice(p.ppsNalu, old(p.ppsNalu)))
+//@   ensures fu_a [C10]: len(nalu) > int(mtu) && int(mtu) > 2 && bits(nalu[0], 4, 0) != 9 && bits(nalu[0], 4, 0) != 12 && (p.DisableStapA || (bits(nalu[0], 4, 0) != 7 && bits(nalu[0], 4, 0) != 8)) ==> len(payloads) >= h264F(len(old(payloads)), p.DisableStapA, old(p.spsNalu), old(p.ppsNalu), int(mtu)) + 2 && (forall k :: h264F(len(old(payloads)), p.DisableStapA, old(p.spsNalu), old(p.ppsNalu), int(mtu)) <= k && k < len(payloads) ==> int(payloads[k][0]) == 28 + bits(nalu[0], 6, 5) * 32 && bits(payloads[k][1], 4, 0) == bits(nalu[0], 4, 0) && (bits(payloads[k][1], 7, 7) == 1 <==> k == h264F(len(old(payloads)), p.DisableStapA, old(p.spsNalu), old(p.ppsNalu), int(mtu))))
+//@   ensures dropped [C10]: len(nalu) == 0 || bits(nalu[0], 4, 0) == 9 || bits(nalu[0], 4, 0) == 12 ==> len(payloads) == len(old(payloads))
+//@   ensures held_back [C10]: len(nalu) > 0 && !p.DisableStapA && (bits(nalu[0], 4, 0) == 7 || bits(nalu[0], 4, 0) == 8) ==> len(payloads) == len(old(payloads))
+//@   ensures single_unit [C10]: len(nalu) > 0 && len(nalu) <= int(mtu) && bits(nalu[0], 4, 0) != 9 && bits(nalu[0], 4, 0) != 12 && (p.DisableStapA || (bits(nalu[0], 4, 0) != 7 && bits(nalu[0], 4, 0) != 8)) ==> len(payloads) >= len(old(payloads)) + 1 && len(payloads[len(payloads) - 1]) == len(nalu) && eqseq(payloads[len(payloads) - 1], 0, nalu, 0, len(nalu))
 //@ end
 //@ spec (*H264Payloader).Payload
 //@   modifies p.spsNalu, p.ppsNalu
+//@   ensures bounded [C08,C10]: h264Frags(result0, len(result0), int(mtu))
 //@   ensures owned [C08]: len(result0) > 0 ==> fresh(result0)
 //@   ensures state_owned [C08]: (p.spsNalu == nil || fresh(p.spsNalu) || sameSlice(p.spsNalu, old(p.spsNalu))) && (p.ppsNalu == nil || fresh(p.ppsNalu) || sameSlice(p.ppsNalu, old(p.ppsNalu)))
 //@ end
